@@ -145,7 +145,7 @@ def main(argv):
     cov = {
         "evaluations": int(m["evaluations"]),
         "distinct_nontrivial": int(distinct_nt),
-        "rule": meta["rule"],
+        "rule": meta["rule"] + ((" " + meta["added"]) if meta.get("added") else ""),
         "samples": m["samples"],
         "monitors": m["monitors"],
         "shards": nshards,
